@@ -183,6 +183,14 @@ fn derive_pair(l: L, op: u16, ia: Ing, ib: Ing, dep: usize, r3: u128) -> (u128, 
                 b = bl.wrap(&(&q + &d));
             }
         }
+        8 => {
+            // carry boundary of the middle column of the two-limb product (128-bit multiplications)
+            if l.w == 128 && op == MUL {
+                if let Some((x, y)) = mul_column_boundary(r3) {
+                    (a, b) = if (r3 >> 100) & 1 == 1 { (y, x) } else { (x, y) };
+                }
+            }
+        }
         6 => {
             // a = q*b + small: exact multiples and their neighbours
             let bv = if is_int_rhs(op) { bl.val(b).shl(f) } else { bl.val(b) };
@@ -208,7 +216,36 @@ fn derive_pair(l: L, op: u16, ia: Ing, ib: Ing, dep: usize, r3: u128) -> (u128, 
     (a, b)
 }
 
-const DEP_TABLE: [usize; 14] = [0, 0, 0, 0, 1, 2, 3, 4, 4, 5, 5, 6, 6, 7];
+
+/// Operands (a, b) of a 128-bit multiplication for which the middle column of the two-limb schoolbook product,
+/// `ah*bl + floor(al*bl / 2^64) + al*bh`, is exactly 2^128 - 1, 2^128 - 2 or 2^128: the boundary of the only
+/// carry that column can produce. Uniform operands reach it with probability 2^-128; it is solved for here:
+/// ah = 2^64 - alpha, bl = 2^64 - beta, small bh, and al searched around N / (bh + 1).
+pub fn mul_column_boundary(r: u128) -> Option<(u128, u128)> {
+    let m64 = u64::MAX as u128;
+    for t in 0..96u128 {
+        let r = r.wrapping_add(t.wrapping_mul(0x9e37_79b9_7f4a_7c15_f39c_c060_5ced_c835));
+        let (ka, kb) = (1 + (r % 12) as u32, 1 + ((r >> 8) % 12) as u32);
+        let alpha = 1 + (r >> 16) % (1u128 << ka);
+        let beta = 1 + (r >> 40) % (1u128 << kb);
+        let bh = alpha + beta + (r >> 64) % 24;
+        let delta = ((r >> 80) % 3) as i128 - 1;
+        let (ah, bl) = ((1u128 << 64) - alpha, (1u128 << 64) - beta);
+        // N = target - ah*bl = (alpha + beta) 2^64 - alpha beta - 1 + delta
+        let n = (((alpha + beta) << 64) - alpha * beta - 1).wrapping_add(delta as u128);
+        let g = |al: u128| al * bh + ((al * bl) >> 64);
+        let al0 = n / (bh + 1);
+        for d in 0..8u128 {
+            let al = al0.wrapping_add(d).wrapping_sub(3);
+            if al <= m64 && g(al) == n {
+                return Some(((ah << 64) | al, (bh << 64) | bl));
+            }
+        }
+    }
+    None
+}
+
+const DEP_TABLE: [usize; 16] = [0, 0, 0, 0, 1, 2, 3, 4, 4, 5, 5, 6, 6, 7, 8, 8];
 
 impl Engine for Arith {
     fn name(&self) -> &'static str {
@@ -607,7 +644,20 @@ fn program_strategy(stratum: Option<u16>) -> BoxedStrategy<Case> {
             } else {
                 LITERALS[lit].to_string()
             };
-            Case { op: PROGRAM, lay, a: pattern(l, ia), prog, s, ..Case::default() }
+            let mut a0 = pattern(l, ia);
+            if l.w == 128 && lsel & 7 == 0 {
+                // first step a multiplication: start value and operand on the column-carry boundary
+                if let Some((w, _, _)) = prog.first() {
+                    if *w == W_BIN {
+                        if let Some((x, y)) = mul_column_boundary(lsel >> 3) {
+                            a0 = x;
+                            let form = prog[0].2 & !0xff;
+                            prog[0] = (W_BIN, y, 2 | form);
+                        }
+                    }
+                }
+            }
+            Case { op: PROGRAM, lay, a: a0, prog, s, ..Case::default() }
         })
         .boxed()
 }
@@ -903,3 +953,23 @@ pub fn main_entry() {
     std::process::exit(vcore::run::main_with(&Arith, lay::is_chk()));
 }
 pub const PROGRAM_OP: u16 = ops::PROGRAM;
+
+#[cfg(test)]
+mod column_tests {
+    use super::*;
+    #[test]
+    fn column_boundary_is_exact() {
+        let mut found = 0;
+        for i in 0..200u128 {
+            let r = i.wrapping_mul(0x1234_5678_9abc_def1_0fed_cba9_8765_4321) ^ (i << 90);
+            if let Some((a, b)) = mul_column_boundary(r) {
+                let (ah, al, bh, bl) = (Big::from_u128(a >> 64), Big::from_u128(a & u64::MAX as u128), Big::from_u128(b >> 64), Big::from_u128(b & u64::MAX as u128));
+                let col = &(&(&ah * &bl) + &(&al * &bl).shr_floor(64)) + &(&al * &bh);
+                let d = &col - &Big::pow2(128);
+                assert!(d.abs() <= Big::from_u64(2) && d <= Big::zero(), "column off by {:?}", d);
+                found += 1;
+            }
+        }
+        assert!(found > 150, "found only {}", found);
+    }
+}
